@@ -58,7 +58,7 @@ def _discipline (ctx, f, mod, clause='D1'):
           other = [s_ for s_ in sides if not (isinstance(s_, ast.Name) and s_.id == lvar)][0]
           if isinstance(other, ast.Call) and call_name(other) == 'len': cmps.append((n, other))
     for n, other in cmps:
-      good = norm(other.args[0]) == B
+      good = norm(other.args[0]) == B or _canon(f, other.args[0]) == _canon(f, buf)
       ctx.ob('R-AGREE', f, "bytes written by `%s` are compared with the length of the buffer written" % norm(call)[:40], good,
              "%s vs len(%s)" % (lvar, B) if good else "the result of sending `%s` is compared with len(%s): a complete write is not recognised (or a short one is taken for complete)" % (B, norm(other.args[0])), (mod, n), clause)
     # uses of l as index / slice of a buffer
@@ -68,7 +68,7 @@ def _discipline (ctx, f, mod, clause='D1'):
         used = True
         sl = n.slice
         is_suffix = isinstance(sl, ast.Slice) and sl.lower is not None and norm(sl.lower) == lvar and sl.upper is None
-        same = norm(n.value) == B or (isinstance(buf, ast.Name) and _alias_of(f, n.value, buf.id))
+        same = norm(n.value) == B or (isinstance(buf, ast.Name) and _alias_of(f, n.value, buf.id)) or _canon(f, n.value) == _canon(f, buf)
         good = is_suffix and same
         ctx.ob('R-AGREE', f, "unsent remainder after `%s` is the suffix of the written buffer" % norm(call)[:40], good,
                "%s[%s:]" % (B, lvar) if good else "remainder is taken as `%s` (%s): bytes are %s" % (norm(n), "not a suffix slice [l:]" if not is_suffix else "slice of a different buffer than `%s`" % B,
@@ -85,6 +85,24 @@ def _discipline (ctx, f, mod, clause='D1'):
 def _alias_of (f, e, name):
   return isinstance(e, ast.Name) and e.id == name
 
+def _canon (f, e, depth=0):
+  """text of e with locals that are single-definition copies of a name / subscript / attribute chain replaced by what they copy
+  (`chunk = queue[0]`, `queue = pending[con]`, `pending = self._dataForConnection`): two spellings of the same buffer compare equal"""
+  import copy
+  if depth > 5: return norm(e)
+  e = copy.deepcopy(e)
+  changed = False
+  class _R(ast.NodeTransformer):
+    def visit_Name (self, n):
+      nonlocal changed
+      if isinstance(n.ctx, ast.Load):
+        d = q.single_def(f.node, n.id)
+        if d is not None and isinstance(d, (ast.Name, ast.Subscript, ast.Attribute)) and not any(isinstance(x, ast.Call) for x in ast.walk(d)) and not q.mentions_name(d, n.id):
+          changed = True; return copy.deepcopy(d)
+      return n
+  e2 = _R().visit(e)
+  return _canon(f, e2, depth + 1) if changed else norm(e2)
+
 def run (ctx):
   ctx.explanation = EXPLAIN
   ctx.assumptions = ["socket.send returns the number of bytes accepted", "RLock regions are exactly the lexical `with self._lock:` blocks"]
@@ -93,6 +111,8 @@ def run (ctx):
   con = repo.cls(OF, 'Connection'); ds = repo.cls(OF, 'DeferredSender')
   iow = repo.cls(IO, 'IOWorker'); riw = repo.cls(IO, 'RecocoIOWorker')
   csend = q.find_method(repo, con, 'send', 'C20'); dsend = q.find_method(repo, ds, 'send', 'C20'); drun = q.find_method(repo, ds, 'run', 'C20')
+  for f_ in (dsend, drun):      # a local alias of the queue map (`pending = self._dataForConnection`, taken under the lock) is put back
+    q.inline_attr_copies(f_.node, set(['self']), deep=True)
   dkill = ds.methods.get('kill'); slc = q.find_method(repo, ds, '_sliceup', 'C20')
   isend = q.find_method(repo, iow, 'send', 'C20'); dosend = q.find_method(repo, iow, '_do_send', 'C20'); cons = q.find_method(repo, iow, '_consume_send_buf', 'C20')
   sfast = q.find_method(repo, riw, 'send_fast', 'C20'); rclose = q.find_method(repo, riw, 'close', 'C20'); iclose = q.find_method(repo, iow, 'close', 'C20')
@@ -175,7 +195,10 @@ def run (ctx):
     good = bool(heads) and all(norm(n.slice) == '0' for n in heads)
     ctx.ob('R-AGREE', drun, "the deferred sender always works on the head of the queue", good, "%s[0] only" % qv if good else "queue accessed at %s" % sorted(set(norm(n.slice) for n in heads)), drun, 'D2')
     part = [s_ for t, v, s_, k in q.stores_in(drun.node) if isinstance(t, ast.Subscript) and norm(t.value) == qv and k == 'assign']
-    good = len(part) == 1 and norm(part[0].targets[0].slice) == '0' and norm(part[0].value).endswith('[l:]')
+    lv_ = set(x_[0] for x_ in _send_sites(drun)) or set(['l'])      # whatever the byte count returned by send() is called
+    pv_ = part[0].value if part else None
+    good = len(part) == 1 and norm(part[0].targets[0].slice) == '0' and isinstance(pv_, ast.Subscript) and isinstance(pv_.slice, ast.Slice) and pv_.slice.upper is None and pv_.slice.step is None \
+           and pv_.slice.lower is not None and norm(pv_.slice.lower) in lv_
     ctx.ob('R-AGREE', drun, "a partial deferred write leaves the unsent suffix at the head", good, norm(part[0]) if part else "no head replacement", drun, 'D2')
     if part:
       pn = q.enclosing_stmt_node(g, part[0])
@@ -278,6 +301,19 @@ def run (ctx):
     dl = [x for x in g.nodes if x.ast is not None and isinstance(x.ast, ast.Delete) and '_dataForConnection' in norm(x.ast) and g.dominates(n, x)]
     br = g.postdominates([x for x in g.nodes if x.kind == 'break'], n)
     if dl and br and any(re.fullmatch(r'\w+\.errno != EAGAIN', f) for f in q.fact_strs(g, n)): okd = True
+  if not okd and dfat:
+    # the same three steps behind the flags an extracted helper leaves (`done = True ... if ret: del queue[con]`): by enumeration of
+    # the feasible paths from the disconnect to the next loop head / exit - each drops the queue and none writes again
+    heads_ = [h_ for (st_, h_, a_) in g.loop_nodes]
+    try:
+      for n in dfat:
+        if not any(re.fullmatch(r'\w+\.errno != EAGAIN', f) for f in q.fact_strs(g, n)): continue
+        ps_ = q.paths_under(repo, mod, g, q.Env(), n, heads_ + [g.exit, g.raise_exit], dsend.cls if 'dsend' in dir() else None, limit=300, track_start=True)
+        if not ps_ or len(ps_) >= 300: continue
+        def drops (p_): return any(x.ast is not None and ((isinstance(x.ast, ast.Delete) and '_dataForConnection' in norm(x.ast)) or any(call_name(c_) == 'pop' and '_dataForConnection' in norm(c_.func.value) for c_ in q.node_calls(x))) for x in p_)
+        def writes (p_): return any(any(call_name(c_) == 'send' and 'sock' in norm(c_.func.value) for c_ in q.node_calls(x)) for x in p_[1:])
+        if all(drops(p_) and not writes(p_) for p_, e_ in ps_): okd = True
+    except Exception: pass
   ctx.ob('R-EFFECT', drun, "a fatal error in the deferred sender disconnects, drops that connection's queue and stops writing", okd, "disconnect; del queue; break" if okd else "fatal branch of the deferred sender changed", drun, 'D5')
   g = q.cfg_of(sfast)
   direct = g.nodes_with_call(lambda c: call_name(c) == 'send' and norm(c.func.value) == 'self.socket')
@@ -296,7 +332,18 @@ def run (ctx):
   rts = iow.methods.get('_ready_to_send')
   if rts is not None:
     rv = q.returns_of(rts.node)
-    ctx.ob('R-AGREE', rts, "ready-to-send means buffered bytes or connecting", bool(rv) and norm(rv[0].value) == 'len(self.send_buf) > 0 or self._connecting', norm(rv[0].value) if rv else "?", rts, 'D5')
+    good_ = bool(rv) and norm(rv[0].value) == 'len(self.send_buf) > 0 or self._connecting'
+    if rv and not good_ and len(rv) == 1:
+      # another spelling: its truth value for the four combinations of (bytes buffered, connecting)
+      good_ = True
+      for buf_ in (b'', b'x'):
+        for cn_ in (False, True):
+          try: v_ = q.eval_env2(repo, iow.module, rv[0].value, q.Env({'self.send_buf': buf_, 'self._connecting': cn_}), iow)
+          except Exception: v_ = q.OPAQUE
+          if v_ is q.OPAQUE: good_ = None; break
+          if bool(v_) != (bool(buf_) or cn_): good_ = False; break
+        if good_ is not True: break
+    ctx.ob('R-AGREE', rts, "ready-to-send means buffered bytes or connecting", good_, norm(rv[0].value) if rv else "?", rts, 'D5')
   fat = g.nodes_with_call(lambda c: call_name(c) == 'close')
   import re as re_
   fatal_fact = lambda f: re_.fullmatch(r'\w+\.errno != errno\.EAGAIN', f) is not None or re_.fullmatch(r'\w+\.errno not in \(errno\.EAGAIN, errno\.EWOULDBLOCK\)', f) is not None
